@@ -199,6 +199,7 @@ def parse_kani_log(text):
     if ("out of memory" in low or "std::bad_alloc" in low or "memory exhausted" in low or "Status: ERROR" in text
             or re.search(r"CBMC failed with status (6|9|11|134|137)", text)):
         r["oom"] = True
+    r["no_panic"] = bool(re.search(r"VERIFICATION:- FAILED \(encountered no panics, but at least one was expected\)", text))
     if re.search(r"^error(\[E\d+\])?:", text, re.M) and r["result"] is None:
         r["compile_error"] = True
     return r
@@ -309,6 +310,8 @@ def classify(h, r):
         if fc and not real:
             return "inconclusive", "unwinding bound too small: " + fc[0]["description"]
         if not fc:
+            if r.get("no_panic"):
+                return "violated", "should_panic harness ran to its end: no panic where the property demands one"
             return "inconclusive", "FAILED without a failed check (see log)"
         return "violated", "; ".join("%s (%s:%s)" % (c["description"], os.path.basename(c["file"] or "?"), c["line"]) for c in real[:4])
     # SUCCESSFUL
